@@ -406,10 +406,15 @@ def _col_b(kind, r):
     return {"HED": {"x": "{" + r + "}"}}
 
 
+def _bname():
+    """name of the second column: 'b', or 'B' in the VP_UPPER cells (column names may contain upper-case letters)"""
+    return "B" if R.env_int("VP_UPPER") else "b"
+
+
 def _two(ka, s, pound, kb, r):
     doc = {"a": _col(ka, s, pound)}
     if kb != 0:
-        doc["b"] = _col_b(kb, r)
+        doc[_bname()] = _col_b(kb, r)
     return doc
 
 
@@ -428,14 +433,17 @@ def _ref_pre(ka, s, pound, kb, r):
             ok = True
     if not ok:
         return False
-    if not (len(s) <= R.N(3) and R.scell(s, "{}ab") and R.over(s, os.environ.get("VP_SALPHA", "{}ab"))):
+    alpha = os.environ.get("VP_SALPHA", "{}ab")
+    if R.env_int("VP_UPPER"):
+        alpha = alpha.replace("b", "B")
+    if not (len(s) <= R.N(3) and R.scell(s, "{}a" + _bname()) and R.over(s, alpha)):
         return False
     if os.environ.get("VP_POUND") == "tie" and pound != (ka == 0):
         return False       # quick tier: '#' appended exactly where the '#' rule wants it
     if kb == 3 or kb == 5:
         # the column referenced from b: a, b (mutual / self reference) or HED (b then holds a legal reference of
         # its own, so that a reference TO b is a nested reference whatever the order of the columns)
-        if not ((len(r) == 1 and R.over(r, "ab")) or r == "HED"):
+        if not ((len(r) == 1 and R.over(r, "a" + _bname())) or r == "HED"):
             return False
     doc = _two(ka, s, pound, kb, r if (kb == 3 or kb == 5) else "a")
     if _active("C08-ref-name-outside-pattern") and R.known("C08-ref-name-outside-pattern", _kf_ref_not_a_name(doc)):
@@ -619,13 +627,15 @@ HARNESSES = [
              "return the entry's own objects",
         oracle="models/sidecar_ref.py kind()", stubs=[], outside="non-object entries in hed_dict (known finding)"),
     R.H("ref_rules", _T_LOAD + _T_REFS + [_SVN + "validate_structure"],
-        quick=R.tier(cells=R.product_cells(R.int_cells("VP_KA", 0, 1), R.str_cells(3, split1_from=3, nclass=4)),
+        quick=R.tier(cells=R.product_cells(R.int_cells("VP_KA", 0, 1), R.str_cells(3, split1_from=3, nclass=4),
+                                           R.int_cells("VP_UPPER", 0, 1)),
                      env={"VP_N": 3, "VP_KBSET": "0235", "VP_POUND": "tie"}, timeout=300,
                      bound="column a = value with text s+'#' / 1 category with text s (s <= 3 chars over '{}ab'), "
-                           "column b in {absent, value 'a#', value '{r}#', category '{r}'} "
-                           "with r in {a, b}"),
+                           "column b (named 'b', or 'B' in the VP_UPPER cells) in {absent, value 'a#', value '{r}#', "
+                           "category '{r}'} with r in {a, b, HED}"),
         thorough=R.tier(cells=R.product_cells(R.int_cells("VP_KA", 0, 2),
-                                              R.str_cells(4, split1_from=2, split2_from=4, nclass=4)),
+                                              R.str_cells(4, split1_from=2, split2_from=4, nclass=4),
+                                              R.int_cells("VP_UPPER", 0, 1)),
                         env={"VP_N": 4}, timeout=1100,
                         bound="as quick with s <= 4 chars, '#' appended or not for every kind of column a, "
                               "column a also with 2 categories, column b also {} (no HED) and category 'a'"),
